@@ -39,7 +39,7 @@ def parse_cardinality(vals):
         min_int = isinstance(min_val, int) and min_val >= 0
         max_int = isinstance(max_val, int) and max_val >= 0
 
-        if min_int and max_int and max_val > min_val:
+        if min_int and max_int and max_val >= min_val:
             return min_val, max_val
 
         if min_int and not max_val:
